@@ -475,7 +475,14 @@ func (m sortByOffsetSlice) Less(i, j int) bool {
 
 // setScoreWeight is a helper used by gatherMatches to set the weight based on
 // the score weight of the matchTree.
+//
+// The weight is the product of the query's Boost values above the match. Those
+// come straight from the client and nested boosts multiply, so the product is
+// capped at maxBoostWeight to keep scores finite.
 func setScoreWeight(scoreWeight float64, cm []*candidateMatch) []*candidateMatch {
+	if scoreWeight > maxBoostWeight {
+		scoreWeight = maxBoostWeight
+	}
 	for _, m := range cm {
 		m.scoreWeight = scoreWeight
 	}
